@@ -65,6 +65,21 @@ def run(ck):
     c19 = importlib.import_module("checks.c19"); c13 = importlib.import_module("checks.c13"); c09 = importlib.import_module("checks.c09")
     import contact_common as cc
     asan_lines("run", [c19.gen_case(rng, "c10r%d" % i, forced=s)["line"] for i, s in enumerate(["steady", "divide", "remove", "empty"] * (1 if quick else 6))], wrap=True)
+    # the same life cycles with a clock that advances 111 hours / 13 years per reading: elapsed-time formatting far beyond two-digit hours
+    exe_run = vlib.build_driver("run", wrap_clock=True, san=True)
+    for step in ("400000000000000", "400000000000000000"):
+        for sc in (["steady"] if quick else ["steady", "divide", "remove"]):
+            l = c19.gen_case(rng, "c10t%s" % step[:4], forced=sc)["line"]
+            nscen += 1; dist["run(long computation time)"] = dist.get("run(long computation time)", 0) + 1
+            try:
+                r = vlib.run([exe_run], input=l + "\n", timeout=1800, env=dict(ASAN_ENV, VERIF_CLOCK_STEP_NS=step))
+            except subprocess.TimeoutExpired:
+                continue
+            cl = classify(r.stderr)
+            if cl:
+                fails.append(("no_memory_error", cl, dict(driver="run", input=l[:100000], report=r.stderr[:8000], clock_step_ns=step), "%s in %s (solver::run with %s ns of computation time per clock reading, under AddressSanitizer/UBSan)" % (cl[0], cl[1], step)))
+            elif r.returncode < 0:
+                fails.append(("no_crash", ("signal", "run-long"), dict(driver="run", input=l[:100000], stderr=r.stderr[-3000:], clock_step_ns=step), "driver run died with signal %d at a clock step of %s ns" % (-r.returncode, step)))
     asan_lines("init", [c13.gen_ini(rng)["line"] for _ in range(8 if quick else 80)] + [c13.gen_gate(rng)[0] for _ in range(10 if quick else 100)], wrap=True)
     asan_lines("divide", [c09.gen_div(rng, "c10d")["line"] for _ in range(5 if quick else 60)], wrap=True)
     # several cells dividing in one pass under 4 threads (the mothers finish in varying order): besides the sanitizer, every list
